@@ -59,9 +59,19 @@ static void exec(void)
   mc_log("%s\n", sig.s);
   const char *good = "g=1\n";
   const char *bad_path;
+  /* the character sets are handed over in buffers that held a set of ANOTHER class during an earlier, unrelated read: what the
+   * library does with a set depends on its content at the time of the call, not on where the caller keeps it */
+  static char dbuf[16], cbuf[16]; static char prime[520]; static int primed_tag = -1; static unsigned primed_n;
+  if (!prime[0]) { snprintf(prime, sizeof prime, "%s/prime.conf", mc_work); mc_write_file(prime, "p 1\n", 4); }
+  if (primed_tag != mc_tag || (primed_n++ & 63) == 0) {
+    primed_tag = mc_tag;
+    strcpy(dbuf, cg.cls == CLS_NONBLANK ? " \t=" : "%"); strcpy(cbuf, "!");
+    econf_file *pf = NULL; if (econf_readFile(&pf, prime, dbuf, cbuf) == ECONF_SUCCESS) econf_freeFile(pf);
+  }
+  snprintf(dbuf, sizeof dbuf, "%s", cg.D); snprintf(cbuf, sizeof cbuf, "%s", cg.C);
   econf_file *kf = SENT_KF;
   econf_err rc;
-  if (embed == 0) { put(p_single, f.s); bad_path = p_single; rc = econf_readFile(&kf, p_single, cg.D, cg.C); }
+  if (embed == 0) { put(p_single, f.s); bad_path = p_single; rc = econf_readFile(&kf, p_single, dbuf, cbuf); }
   else {
     unlink(p_main0); unlink(p_main1);
     int as_main = embed == 1 || embed == 5 || embed == 7, dropidx = embed == 6 ? 1 : embed - 2;
@@ -71,8 +81,8 @@ static void exec(void)
       char opt[800]; snprintf(opt, sizeof opt, "%s;PARSING_DIRS=%s:%s", embed == 7 ? "PYTHON_STYLE=1" : "JOIN_SAME_ENTRIES=1", d0, d1);
       econf_file *own = NULL;
       rc = econf_newKeyFile_with_options(&own, opt);
-      if (rc == ECONF_SUCCESS) { kf = own; rc = econf_readConfig(&kf, NULL, NULL, "cfg", "conf", cg.D, cg.C); }
-    } else rc = econf_readDirs(&kf, d0, d1, "cfg", "conf", cg.D, cg.C);
+      if (rc == ECONF_SUCCESS) { kf = own; rc = econf_readConfig(&kf, NULL, NULL, "cfg", "conf", dbuf, cbuf); }
+    } else rc = econf_readDirs(&kf, d0, d1, "cfg", "conf", dbuf, cbuf);
   }
   mc_st->libcalls++;
   char *lf = NULL; uint64_t ln = 0;
